@@ -427,7 +427,7 @@ fn parse_enum_variant(
     target_os: &[String],
 ) -> Result<RustEnumVariant, ParseError> {
     let shared = RustEnumVariantShared {
-        id: get_ident(Some(&v.ident), &v.attrs, enum_serde_rename_all),
+        id: get_variant_ident(&v.ident, &v.attrs, enum_serde_rename_all),
         comments: parse_comment_attrs(&v.attrs),
     };
 
@@ -653,6 +653,29 @@ fn get_ident(
     }
 }
 
+/// The identifier of an enum variant: `serde(rename_all)` treats variant names (written in
+/// PascalCase) differently from field names (written in snake_case).
+fn get_variant_ident(
+    ident: &proc_macro2::Ident,
+    attrs: &[syn::Attribute],
+    rename_all: &Option<String>,
+) -> Id {
+    let mut id = get_ident(Some(ident), attrs, &None);
+    if !id.serde_rename {
+        id.renamed = rename_all_variant_to_case(id.original.clone(), rename_all);
+    }
+    id
+}
+
+/// Lower-case the first character only (ASCII), like serde does for camelCase.
+fn lowercase_first(s: &str) -> String {
+    let mut chars = s.chars();
+    match chars.next() {
+        Some(first) => first.to_ascii_lowercase().to_string() + chars.as_str(),
+        None => String::new(),
+    }
+}
+
 fn rename_all_to_case(original: String, case: &Option<String>) -> String {
     match case {
         None => original,
@@ -665,6 +688,35 @@ fn rename_all_to_case(original: String, case: &Option<String>) -> String {
             "SCREAMING_SNAKE_CASE" => original.to_screaming_snake_case(),
             "kebab-case" => original.to_kebab_case(),
             "SCREAMING-KEBAB-CASE" => original.to_screaming_kebab_case(),
+            _ => original,
+        },
+    }
+}
+
+/// `serde(rename_all = "...")` applied to an enum variant, following serde_derive's
+/// `RenameRule::apply_to_variant`: the variant is assumed to be written in PascalCase.
+fn rename_all_variant_to_case(original: String, case: &Option<String>) -> String {
+    fn snake(variant: &str) -> String {
+        let mut snake = String::new();
+        for (i, ch) in variant.char_indices() {
+            if i > 0 && ch.is_uppercase() {
+                snake.push('_');
+            }
+            snake.push(ch.to_ascii_lowercase());
+        }
+        snake
+    }
+    match case {
+        None => original,
+        Some(value) => match value.as_str() {
+            "PascalCase" => original,
+            "lowercase" => original.to_ascii_lowercase(),
+            "UPPERCASE" => original.to_ascii_uppercase(),
+            "camelCase" => lowercase_first(&original),
+            "snake_case" => snake(&original),
+            "SCREAMING_SNAKE_CASE" => snake(&original).to_ascii_uppercase(),
+            "kebab-case" => snake(&original).replace('_', "-"),
+            "SCREAMING-KEBAB-CASE" => snake(&original).to_ascii_uppercase().replace('_', "-"),
             _ => original,
         },
     }
